@@ -224,7 +224,11 @@ func main() {
 				if rs.Key != nil && render(rs.Key) != "_" {
 					keyName = render(rs.Key)
 				}
-				src := fmt.Sprintf("vndKeys := make([]%s, 0, len(%s))\nfor vndk := range %s { vndKeys = append(vndKeys, vndk) }\nvnd.Order(vndKeys)\n", kt, ex, ex)
+				orderFn := "Order"
+				if kt == "uint32" {
+					orderFn = "OrderU32"
+				}
+				src := fmt.Sprintf("vndKeys := make([]%s, 0, len(%s))\nfor vndk := range %s { vndKeys = append(vndKeys, vndk) }\nvnd.%s(vndKeys)\n", kt, ex, ex, orderFn)
 				pre = parseStmts(src)
 				loop := parseStmts(fmt.Sprintf("for _, %s := range vndKeys { _ = %s }", keyName, keyName))[0].(*ast.RangeStmt)
 				var body []ast.Stmt
